@@ -17,7 +17,13 @@ func MakeVirtualHostBucketAddressingMiddleware(baseEndpoint string, next http.Ha
 		if hostname != baseEndpoint && strings.HasSuffix(hostname, endpointSuffix) {
 			bucket := strings.TrimSuffix(hostname, endpointSuffix)
 			if bucket != "" {
-				r.URL.Path = strings.TrimSuffix("/"+bucket+r.URL.Path, "/")
+				if r.URL.Path == "" || r.URL.Path == "/" {
+					// bucket-level request
+					r.URL.Path = "/" + bucket
+				} else {
+					// keep a trailing '/': it is part of the object key
+					r.URL.Path = "/" + bucket + r.URL.Path
+				}
 			}
 		}
 		next.ServeHTTP(w, r)
